@@ -66,8 +66,18 @@ def _d(h, cls, state):
     deserialization. For ASTs, this does not work.
     """
     op, args, length, variables, symbolic, annotations = state
+    # the pickled annotation tuple is final: rebuilding it from a frozenset (as the constructor does when it collects the
+    # children's relocatable annotations) would reorder it by the hash seed of this process and drop repeated annotations
     return cls.__new__(
-        cls, op, args, length=length, variables=variables, symbolic=symbolic, annotations=annotations, hash=h
+        cls,
+        op,
+        args,
+        length=length,
+        variables=variables,
+        symbolic=symbolic,
+        annotations=annotations,
+        skip_child_annotations=True,
+        hash=h,
     )
 
 
